@@ -34,6 +34,7 @@ type Engine struct {
 	closures   map[string]*closureInfo
 	globalIDs  map[string]int
 	mapLits    map[string][]mapEntry
+	constGlobals map[string]string
 	specErrors map[string]bool
 	loadErrors []string
 	liveCache  map[*ssa.Function]map[*ssa.BasicBlock]map[ssa.Value]bool
@@ -151,7 +152,7 @@ func loadEngine(repo, verifDir string) (*Engine, error) {
 		outDir = verifDir
 	}
 	e := &Engine{repo: repo, verifDir: verifDir, outDir: outDir, types: newTypeReg(), specs: newSpecDB(), fnByKey: map[string][]*ssa.Function{},
-		closures: map[string]*closureInfo{}, globalIDs: map[string]int{}, mapLits: map[string][]mapEntry{}, specErrors: map[string]bool{}}
+		closures: map[string]*closureInfo{}, globalIDs: map[string]int{}, mapLits: map[string][]mapEntry{}, constGlobals: map[string]string{}, specErrors: map[string]bool{}}
 	env := []string{}
 	for _, kv := range os.Environ() {
 		if strings.HasPrefix(kv, "GOFLAGS=") || strings.HasPrefix(kv, "GOWORK=") {
@@ -278,6 +279,11 @@ func (e *Engine) scanMapLiterals() {
 						if i >= len(vs.Values) {
 							continue
 						}
+						if tvv, ok := p.TypesInfo.Types[vs.Values[i]]; ok && tvv.Value != nil {
+							// package-level variable initialised with a constant expression
+							e.constGlobals[p.PkgPath+"."+n.Name] = constTerm(tvv.Value)
+							continue
+						}
 						cl, ok := vs.Values[i].(*ast.CompositeLit)
 						if !ok {
 							continue
@@ -344,13 +350,13 @@ func (e *Engine) globalsWritten() []string {
 		for _, b := range fn.Blocks {
 			for _, ins := range b.Instrs {
 				if st, ok := ins.(*ssa.Store); ok {
-					if g, ok := st.Addr.(*ssa.Global); ok {
+					if g, ok := st.Addr.(*ssa.Global); ok && e.reliedOnGlobal(g) {
 						out = append(out, fmt.Sprintf("%s written in %s", g.String(), fn.String()))
 					}
 				}
 				if mu, ok := ins.(*ssa.MapUpdate); ok {
 					if un, ok := mu.Map.(*ssa.UnOp); ok {
-						if g, ok := un.X.(*ssa.Global); ok {
+						if g, ok := un.X.(*ssa.Global); ok && e.reliedOnGlobal(g) {
 							out = append(out, fmt.Sprintf("%s updated in %s", g.String(), fn.String()))
 						}
 					}
@@ -471,4 +477,25 @@ func (e *Engine) registerNamedSorts() {
 			}
 		}
 	}
+}
+
+// reliedOnGlobal: package-level variables the verification reads as fixed values - the generated enum
+// maps, constant-initialised variables, and hand-written variables (error sentinels, module
+// addresses, prefixes). Descriptor tables of generated protobuf code are not read by any verified path.
+func (e *Engine) reliedOnGlobal(g *ssa.Global) bool {
+	if g.Pkg == nil || !inRepo(g.Pkg.Pkg) {
+		return false
+	}
+	key := g.Pkg.Pkg.Path() + "." + g.Name()
+	if _, ok := e.mapLits[key]; ok {
+		return true
+	}
+	if _, ok := e.constGlobals[key]; ok {
+		return true
+	}
+	file := e.prog.Fset.Position(g.Pos()).Filename
+	if strings.HasSuffix(file, ".pb.go") || strings.HasSuffix(file, ".pulsar.go") || strings.HasSuffix(file, ".pb.gw.go") {
+		return false
+	}
+	return true
 }
